@@ -223,6 +223,35 @@ CHECKS = {
         technique="TLA+ model of enumeration, lookup, option generation, argparse and override + TLC; transition replay through the real parser",
         design="5/C16",
     ),
+    "C04": dict(
+        engine="CincoFormats",
+        text="TLC checks C04_RoundTrip, C04_XmlInverse, C04_OptionsNeutral, C04_WrongRootRejected and C04_Agree exhaustively on "
+        "FormatLab (CincoFormats.tla): the XML element mapping is modelled in detail (type attribute, bool tested before int, "
+        "text fall-back, item children, empty text, forced root type, root tag check, CR/CRLF normalisation of the parser), YAML "
+        "root_key wrap/unwrap, JSON pretty, BSON/pickle as typed channels with domain predicates; every tree session TLC "
+        "enumerates runs the real dumps/loads pairs of all five formats with all option values (typed, NaN-aware, "
+        "sign-of-zero-aware equality; every XML document is also parsed independently and compared with the specification's "
+        "element tree); random trees (depth 5, width 6, wide Unicode, 64-bit boundary ints, arbitrary doubles, random options) "
+        "are logged and re-evaluated by TLC (Trace_Formats).",
+        note="Byte-level behaviour of json/yaml/bson/pickle/minidom is measured by conformance only; domains as the property "
+        "states (XML Chars without CR, XML names as keys, 64-bit ints for BSON); one known finding (map keys containing ':' in XML).",
+        technique="TLA+ model of the XML mapping and format options + TLC invariants; enumerated trees through all real formats; TLC re-evaluation of recorded runs",
+        design="5/C04",
+    ),
+    "C18": dict(
+        engine="CincoInclude",
+        text="TLC checks C18_MergeLaw (stated per leaf path, independently of the recursive Merge), C18_Pure, C18_Equivalent "
+        "(loading a document with includes = loading the merged tree: same final state or same rejection) and C18_PathRule on "
+        "IncludeLab (CincoInclude.tla: combine_trees, _process_includes in the code's order over schema scopes, include path "
+        "validation against the start directory, an abstract file system with missing / directory / unparseable files); every "
+        "case is replayed with real files in a scratch directory in all five formats, combine_trees arguments are deep-copied "
+        "and compared afterwards; random trees / schemas / file systems are logged and validated by Trace_Include. The same "
+        "machinery provides the document-load clause of C06 (harness/props/loadfail.py).",
+        note="Bounded trees (<= 4 keys, depth <= 3) and include chains of two per scope; formats are channels; relative, absolute "
+        "and home-relative start directories.",
+        technique="TLA+ model of merge and include processing + TLC invariants; replay with real include files in five formats; TLC trace validation",
+        design="5/C18",
+    ),
 }
 
 PENDING_REASON = "check not built yet in this round (planned, see DESIGN.md section 5); nothing is claimed for it"
